@@ -580,7 +580,7 @@ func execScript(t *testing.T, c *scriptCase) (obs scriptObs) {
 	synctest.Test(t, func(t *testing.T) {
 		srv := &server{start: time.Now(), script: c.Script}
 		var authClient *auth.Client
-		if c.Op == "A" || c.Op == "W" || c.Op == "V" || c.Op == "U" || c.Op == "X" || c.Op == "Q" || c.PreAuth {
+		if c.Op == "A" || c.Op == "W" || c.Op == "V" || c.Op == "U" || c.Op == "X" || c.Op == "Q" || c.Op == "Y" || c.PreAuth {
 			authClient = &auth.Client{Cache: auth.NewCache(),
 				Credential: auth.StaticCredential("registry.example", auth.Credential{Username: "u", Password: "p"})}
 		}
@@ -657,6 +657,30 @@ func execScript(t *testing.T, c *scriptCase) (obs scriptObs) {
 					obs.res = "PANIC"
 				}
 			}()
+			if c.Op == "Y" || c.Op == "y" {
+				// cross-repository mount that the registry declines (202): the blob is uploaded instead, read
+				// from an io.ReadCloser -- whatever that wraps, the PUT's body cannot be replayed
+				repo, err := remote.NewRepository("registry.example/r")
+				if err != nil {
+					panic(err)
+				}
+				repo.PlainHTTP = true
+				repo.Client = client
+				desc := ocispec.Descriptor{MediaType: "application/octet-stream",
+					Digest: digest.Digest("sha256:" + hex.EncodeToString(sha256Sum(data))), Size: int64(len(data))}
+				err = repo.Mount(ctx, desc, "other", func() (io.ReadCloser, error) {
+					if len(data)%2 == 0 {
+						return io.NopCloser(bytes.NewReader(data)), nil // a replayable reader behind a ReadCloser
+					}
+					return io.NopCloser(&oneShot{bytes.NewReader(data)}), nil
+				})
+				if err == nil {
+					obs.res = "RESP201"
+				} else {
+					obs.res = classify(nil, err, srv.lastShape, srv.rewindHint(c))
+				}
+				return
+			}
 			if c.Op == "U" || c.Op == "u" || c.Op == "X" {
 				// blob push through the Repository: POST (no body), then PUT with the blob
 				repo, err := remote.NewRepository("registry.example/r")
@@ -827,7 +851,7 @@ func scriptCaseRun(t *testing.T, c *scriptCase) {
 			showAttempts(obs.tokenLog, form), showAttempts(sends[1], data))
 		run.Count(fmt.Sprintf("token_attempts_%d", len(obs.tokenLog)))
 	}
-	upload := c.Op == "U" || c.Op == "u" || c.Op == "X"
+	upload := c.Op == "U" || c.Op == "u" || c.Op == "X" || c.Op == "Y" || c.Op == "y"
 	if upload {
 		// sends of a blob push: POST (as sent first / re-sent after a challenge), PUT (same)
 		sends = make([][]attemptRec, 4)
@@ -1052,7 +1076,7 @@ func scriptCaseRun(t *testing.T, c *scriptCase) {
 		rewindErr := obs.res == "ENOTREWINDABLE" && c.Body[0] == 'O' || obs.res == "EGETBODY" && c.Body[0] == 'G'
 		if !ok && rewindErr && upload {
 			// blob push: the PUT was challenged (it did not inherit credentials from the POST)
-			if (c.Op == "U" || c.Op == "X") && last.beh.Kind == "S" && last.beh.Code == 401 && (last.beh.Chal == 1 || last.beh.Chal == 2) &&
+			if (c.Op == "U" || c.Op == "X" || c.Op == "Y") && last.beh.Kind == "S" && last.beh.Code == 401 && (last.beh.Chal == 1 || last.beh.Chal == 2) &&
 				len(sends[1]) == 0 && len(sends[2]) > 0 && len(sends[3]) == 0 {
 				ok = true
 			}
@@ -1277,7 +1301,7 @@ func genDuration(r *common.Rand) int64 {
 }
 
 func genScript(r *common.Rand, big bool) *scriptCase {
-	c := &scriptCase{Op: common.Pick(r, []string{"T", "T", "T", "A", "A", "A", "W", "W", "V", "V", "U", "U", "u", "X", "X", "Q", "Q", "Q"}), Cancel: -1}
+	c := &scriptCase{Op: common.Pick(r, []string{"T", "T", "T", "A", "A", "A", "W", "W", "V", "V", "U", "U", "u", "X", "X", "Q", "Q", "Q", "Y", "y"}), Cancel: -1}
 	c.MaxRetry = common.Pick(r, []int{0, 1, 2, 3, 3, 5, 5, 8, -1})
 	c.Min = genDuration(r)
 	if c.Min < 0 && r.Chance(3, 4) {
@@ -1361,7 +1385,13 @@ func genScript(r *common.Rand, big bool) *scriptCase {
 			}
 		}
 	}
-	if c.Op == "U" || c.Op == "u" || c.Op == "X" {
+	if c.Op == "Y" || c.Op == "y" {
+		c.Body = "O" // the fallback upload of a mount reads from an io.ReadCloser
+		if c.Data == "" && c.BigLen == 0 {
+			c.Data = common.Pick(r, []string{"00010203", "0001020304"})
+		}
+	}
+	if c.Op == "U" || c.Op == "u" || c.Op == "X" || c.Op == "Y" || c.Op == "y" {
 		// blob push: some answers for the POST, its 202, some answers for the PUT, its 201
 		if c.Body != "R" && c.Body != "O" {
 			c.Body = common.Pick(r, []string{"R", "O"})
@@ -1610,8 +1640,11 @@ func enumUploads(t *testing.T, maxLen int) {
 	var rec func(prefix []behaviour)
 	rec = func(prefix []behaviour) {
 		if len(prefix) > 0 {
-			for _, op := range []string{"U", "u", "X"} {
+			for _, op := range []string{"U", "u", "X", "Y", "y"} {
 				for _, body := range []string{"R", "O"} {
+					if (op == "Y" || op == "y") && body == "R" {
+						continue
+					}
 					scriptCaseRun(t, &scriptCase{Op: op, MaxRetry: 2, Min: 100, Max: 1000, Tbl: []int64{50, 5000}, Dflt: 300, Cancel: -1,
 						Body: body, Data: "0102030405", Script: append([]behaviour(nil), prefix...)})
 					run.Count("enumerated_uploads")
@@ -1948,7 +1981,7 @@ func replayCases(t *testing.T) {
 			continue
 		}
 		switch head.Op {
-		case "T", "A", "W", "V", "U", "u", "X", "Q":
+		case "T", "A", "W", "V", "U", "u", "X", "Q", "Y", "y":
 			var c scriptCase
 			if err := json.Unmarshal(js, &c); err != nil {
 				panic(err)
@@ -2120,7 +2153,7 @@ func coverageFloors(t *testing.T) {
 		"enumerated": 1000, "enumerated_cancel_instants": 500, "enumerated_uploads": 1000, "enumerated_manifest": 20,
 		"point_BD": 500, "point_BP": 3000, "point_DP": 1000, "point_seen_W": 2000, "point_seen_FAIL": 100,
 		"real_transport": 4, "real_transport_complete_bodies": 2, "token_scenarios": 100, "oracle_only_default_policy": 100,
-		"token_attempts_2": 20, "parse_int": 2000, "parse_int_nonzero": 1000, "enumerated_tokens": 300,
+		"token_attempts_2": 20, "parse_int": 2000, "parse_int_nonzero": 1000, "enumerated_tokens": 300, "op_Y": 50, "op_y": 50,
 	}
 	var low []string
 	for k, min := range floors {
